@@ -150,14 +150,18 @@ class Rolling:
         mpc = None if mp is None else alg.as_concrete(raw(mp))
         if conc is not None and tcon is not None and pc is not None and (mp is None or mpc is not None):
             return self._concrete(stat, conc, tcon, pc, mpc)
-        wcount = c.fresh_fun("wcount", z3.IntSort(), z3.IntSort())
-        wnan = c.fresh_fun("wnan", z3.IntSort(), z3.BoolSort())
-        wval = c.fresh_fun("w" + stat, z3.IntSort(), z3.RealSort())
+        from .npfuncs import memo_symbol, stable_key
+
+        pv_ = self.period.val
+        wkey = (stable_key(s.values_arr), stable_key(s.index_arr), pv_.sexpr() if alg.is_sym(pv_) else str(pv_))
+        wcount = memo_symbol(("wcount",) + wkey, lambda: c.fresh_fun("wcount", z3.IntSort(), z3.IntSort()))
+        wnan = memo_symbol(("wnan",) + wkey, lambda: c.fresh_fun("wnan", z3.IntSort(), z3.BoolSort()))
+        wval = memo_symbol(("w" + stat,) + wkey, lambda: c.fresh_fun("w" + stat, z3.IntSort(), z3.RealSort()))
         c.add_fact("wcount-nonneg", lambda k: alg.implies(M.in_range(k, n), alg.and_(alg.ge(wcount(alg.lift(k)), 0), alg.ge(wval(alg.lift(k)), 0))))
         # the row itself lies in its own window (period > 0)
         c.add_fact("own-row-in-window", lambda k: alg.implies(M.in_range(k, n), alg.ite(vals(k)[0], wnan(alg.lift(k)), alg.ge(wcount(alg.lift(k)), 1))))
         # a NaN in the window is a NaN at some row of the window (rows j <= k with t[j] > t[k] - p)
-        wnanw = c.fresh_fun("wnanw", z3.IntSort(), z3.IntSort())
+        wnanw = memo_symbol(("wnanw",) + wkey, lambda: c.fresh_fun("wnanw", z3.IntSort(), z3.IntSort()))
         tt = s.index_arr.getter()
         pns = alg.mul(self.period.val, 10**9)
 
@@ -210,7 +214,9 @@ def _series_ctor(data=None, index=None, dtype=None):
     return Series(data, index, dtype)
 
 
-PD = types.SimpleNamespace()
+from .npfuncs import _ModelNS  # noqa: E402
+
+PD = _ModelNS("pandas")
 PD.__pyvc_model__ = True
 PD.Series = _series_ctor
 
@@ -391,6 +397,9 @@ class IntIndex:
     def to_series(self):
         return IntSeries(self.arr)
 
+    def to_numpy(self):
+        return self.arr.copy()
+
     def _cmp(self, o, op):
         if not M.is_scalar(o):
             raise Unsupported("Index comparison with %r" % (type(o),))
@@ -498,3 +507,51 @@ def _index_ctor(data, dtype=None):
 PD.DatetimeIndex = DatetimeIndex
 PD.Timestamp = _TimestampNS()
 PD.Index = _index_ctor
+
+
+class TimedeltaIndex:
+    """pd.to_timedelta(timedelta64 array): .seconds is the seconds *within the day* (0..86399),
+    .days the whole days, .total_seconds() the total"""
+
+    __hash__ = None
+
+    def __init__(self, arr):
+        if arr.kind != "m" or arr.unit != "ns":
+            raise Unsupported("to_timedelta of %r" % (arr.dtype,))
+        self.arr = arr.copy()
+
+    def _secs(self, i):
+        return alg.idiv(self.arr.val(i), 10**9)
+
+    @property
+    def seconds(self):
+        g = self.arr.getter()
+
+        def f(i):
+            s_ = alg.idiv(g(i)[1], 10**9)
+            return (False, alg.sub(s_, alg.mul(alg.idiv(s_, 86400), 86400)))
+
+        return IntIndex(Arr(self.arr.n, "i", f))
+
+    @property
+    def days(self):
+        g = self.arr.getter()
+        return IntIndex(Arr(self.arr.n, "i", lambda i: (False, alg.idiv(alg.idiv(g(i)[1], 10**9), 86400))))
+
+    def total_seconds(self):
+        g = self.arr.getter()
+        return IntIndex(Arr(self.arr.n, "f", lambda i: (g(i)[0], alg.rdiv(alg.to_real(g(i)[1]) if alg.is_sym(g(i)[1]) else g(i)[1], 10**9))))
+
+    def to_numpy(self):
+        return self.arr.copy()
+
+
+def _to_timedelta(x, unit=None):
+    if isinstance(x, MArr):
+        x = x._data
+    if isinstance(x, Arr):
+        return TimedeltaIndex(x)
+    raise Unsupported("pd.to_timedelta(%r)" % (type(x),))
+
+
+PD.to_timedelta = _to_timedelta
